@@ -3,18 +3,31 @@ import importlib
 import sys
 
 
+class _Unloadable(object):
+    """a binding that is installed but cannot be loaded (its shared library is missing): import raises a plain ImportError"""
+
+    def __init__(self, name, lib):
+        self.name, self.lib = name, lib
+
+    def find_spec(self, fullname, path=None, target=None):
+        if fullname == self.name:
+            raise ImportError("%s: cannot open shared object file: No such file or directory" % self.lib, name=fullname)
+        return None
+
+
 def install(sgio=True, iscsi=True):
-    """sgio / iscsi: True -> stand-in present; False -> import raises ImportError"""
+    """sgio / iscsi: True/1 -> stand-in present; False/0 -> not installed (ModuleNotFoundError); 2 -> installed but unloadable (ImportError)"""
     for m in [m for m in sys.modules if m == "pyscsi" or m.startswith("pyscsi.")]:
         del sys.modules[m]
-    if sgio:
-        sys.modules["sgio"] = importlib.import_module("vf.sim.sgio")
-    else:
-        sys.modules["sgio"] = None
-    if iscsi:
-        sys.modules["iscsi"] = importlib.import_module("vf.sim.iscsi")
-    else:
-        sys.modules["iscsi"] = None
+    sys.meta_path[:] = [f for f in sys.meta_path if not isinstance(f, _Unloadable)]
+    for name, mode, lib in (("sgio", sgio, "libsgutils2.so.2"), ("iscsi", iscsi, "libiscsi.so.9")):
+        if mode == 2:
+            sys.modules.pop(name, None)
+            sys.meta_path.insert(0, _Unloadable(name, lib))
+        elif mode:
+            sys.modules[name] = importlib.import_module("vf.sim." + name)
+        else:
+            sys.modules[name] = None
 
 
 _installed = False
